@@ -925,6 +925,26 @@ def rule_r10(prog, res):
     res.floor('R10', 'derived length caps', n2, 1)
 
 
+def rule_r11(prog, res):
+    res.rule('R11', 'every customised variant is recorded with its original, '
+             'whichever class it was customised from (a variant of a '
+             'variant included)')
+    c = prog.cls('spyne.model.complex:ComplexModelBase')
+    f = c.methods.get('_process_variants')
+    if f is None:
+        raise AnalysisError('ComplexModelBase._process_variants', 'not found')
+    regs = [a for a in walk_no_defs(f.node) if isinstance(a, ast.Assign) and
+            any(isinstance(t, ast.Subscript) and '_variants' in unparse(
+                t.value) for t in a.targets)]
+    res.floor('R11', 'registrations in _process_variants', len(regs), 1)
+    for a in regs:
+        guardspec.check(res, 'R11', f, a, 'the registration of a variant '
+                        'with its original', allowed=[
+                            ('orig is None', False)],
+                        required=[('orig is None', False)],
+                        key='_process_variants|registration')
+
+
 def run(prog, res, tier):
     res.run_rule(rule_r1, prog, res)
     res.run_rule(rule_r2, prog, res)
@@ -936,12 +956,17 @@ def run(prog, res, tier):
     res.run_rule(rule_r8, prog, res)
     res.run_rule(rule_r9, prog, res)
     res.run_rule(rule_r10, prog, res)
+    res.run_rule(rule_r11, prog, res)
 
 
 _C = 'spyne/model/complex.py'
 _B = 'spyne/model/_base.py'
 
 MUTANTS = [
+    Mutant('variants-of-variants-unregistered', 'R11', 'fire', _C,
+           in_func('ComplexModelBase._process_variants',
+                   "        if orig is not None:\n",
+                   "        if orig is cls:\n"), 'registration'),
     Mutant('variant-registry-shared-with-parent', 'R10', 'fire', _C,
            in_func('ComplexModelMeta.__init__',
                    "        if self.__orig__ is None:\n            "
